@@ -25,7 +25,7 @@ StrBad(r) ==
         \/ /\ ~x.panic /\ ep \notin SkipOnly /\ ep # "str_borrow"
            /\ \/ x.ok # strictOk
               \/ (x.ok /\ (x.invalid_utf8 \/ x.s # sv.s))
-              \/ (x.ok /\ ep = "cow_borrow" /\ (x.b = "yes") # ~sv.esc)      \* borrowed <=> no escape
+              \/ (x.ok /\ ep \in {"cow_borrow", "cow_between_bytes"} /\ (x.b = "yes") # ~sv.esc)      \* borrowed <=> no escape (also between two byte buffers that are not UTF-8)
         \/ /\ ~x.panic /\ ep = "str_borrow"
            /\ \/ x.ok # (strictOk /\ ~sv.esc)
               \/ (x.ok /\ x.s # sv.s)
@@ -39,6 +39,8 @@ StrBad(r) ==
         \/ /\ ~x.panic
            /\ \/ x.ok # lossyOk
               \/ (x.ok /\ (x.invalid_utf8 \/ x.s # ly.root.s))
+              \* between two repaired strings of the same document: borrowed <=> nothing had to be repaired or unescaped in this one
+              \/ (x.ok /\ ep = "cow_between" /\ (x.b = "yes") # (Utf8Valid(r.lit) /\ ~ly.root.esc /\ ~ly.badsur))
   IN {ep \in DOMAIN r.res : "strict" \in Checks /\ BadStrict(ep)}
      \cup {"lossy:" \o ep : ep \in {e \in DOMAIN r.lossy : "lossy" \in Checks /\ BadLossy(e)}}
 
